@@ -138,6 +138,13 @@ class HSym(HBase):
             self.ctx.assume(s != 0)
         return s
 
+    def constant(self, x):
+        """a concrete rational hyper-parameter as an exact constant term (arithmetic on it stays exact in z3
+        instead of going through rounded python floats)"""
+        from .sym import SymReal, deround
+        import z3
+        return SymReal(z3.RealVal(str(deround(float(x)))))
+
     def choice(self, name, options):
         """A symbolic selection among concrete options (forks)."""
         from .sym import SymBool
@@ -268,7 +275,7 @@ class HFloat(HBase):
 
     def __init__(self, unit, values, jit=True, unpatched=False, rng=None):
         super().__init__(unit)
-        self.values = values
+        self.values = dict(values)
         self.jit = jit
         self.unpatched = unpatched
         self.np = _np
@@ -282,7 +289,9 @@ class HFloat(HBase):
                 v = Fraction(v)
             return v
         if self.rng is not None:
-            return self.rng.gauss(0, 1)
+            v = self.rng.gauss(0, 1)
+            self.values[name] = v         # cached: the same input keeps its value if the unit asks again
+            return v
         return 0.0
 
     def real(self, name, lo=None, hi=None, nonzero=False):
@@ -295,6 +304,9 @@ class HFloat(HBase):
         if nonzero and v == 0:
             raise AssumptionFailed(name)
         return v
+
+    def constant(self, x):
+        return float(x)
 
     def choice(self, name, options):
         self.inputs.append(name)
@@ -609,4 +621,5 @@ def run_unit_float(unit, values, jit=True, unpatched=False, rng=None):
     out['obligations'] = h.obligations
     out['observed'] = h.observed
     out['input_names'] = h.inputs
+    out['values'] = {k: (v if isinstance(v, str) else repr(float(v))) for k, v in h.values.items()}
     return out
